@@ -41,8 +41,8 @@ PLANS["C02"] = {
     "own": ["grid", "drows"],
     "mc": [{
         "module": "MCGrid",
-        "quick": dict(MaxRows=3, MaxCells=2, MaxLate=1, MaxDetached=1, MaxHdr=2, MaxHist=6),
-        "thorough": dict(MaxRows=4, MaxCells=2, MaxLate=2, MaxDetached=2, MaxHdr=2, MaxHist=8),
+        "quick": dict(MaxRows=3, MaxCells=2, MaxLate=1, MaxDetached=1, MaxHdr=2, MaxHist=6, ItemMode="plain"),
+        "thorough": dict(MaxRows=4, MaxCells=2, MaxLate=2, MaxDetached=2, MaxHdr=2, MaxHist=8, ItemMode="plain"),
         "properties": ["RowsAppendOnly"],
     }],
     "random": [{"gen": gens.gen_grid}],
@@ -274,5 +274,33 @@ PLANS["C08"] = {
     "assumptions": [
         "cells are split at pipes not preceded by a backslash (GFM); entity decoding is html.UnescapeString; only spaces are trimmed",
         "texts are free of carriage returns (documented non-goal)",
+    ],
+}
+
+
+PLANS["C09"] = {
+    "facets": "none",
+    "own": ["out.all"],
+    "mc": [
+        # every build history up to the bound (plain items)
+        {"module": "MCGrid",
+         "quick": dict(MaxRows=3, MaxCells=2, MaxLate=1, MaxDetached=1, MaxHdr=1, MaxHist=5, ItemMode="plain"),
+         "thorough": dict(MaxRows=3, MaxCells=2, MaxLate=1, MaxDetached=1, MaxHdr=2, MaxHist=7, ItemMode="plain"),
+         "run_opts": {"extra": ["-final", "renderall"]}},
+        # smaller shapes with items whose declared size disagrees with their text
+        {"module": "MCGrid",
+         "quick": dict(MaxRows=2, MaxCells=1, MaxLate=1, MaxDetached=1, MaxHdr=1, MaxHist=5, ItemMode="mixed"),
+         "thorough": dict(MaxRows=2, MaxCells=1, MaxLate=2, MaxDetached=1, MaxHdr=1, MaxHist=6, ItemMode="mixed"),
+         "run_opts": {"extra": ["-final", "renderall"]}},
+    ],
+    "simulate": [{"module": "MCGrid",
+                  "quick": dict(MaxRows=40, MaxCells=3, MaxLate=3, MaxDetached=3, MaxHdr=3, ItemMode="mixed", _num=150, _depth=30),
+                  "thorough": dict(MaxRows=60, MaxCells=4, MaxLate=4, MaxDetached=4, MaxHdr=4, ItemMode="mixed", _num=3000, _depth=40),
+                  "run_opts": {"extra": ["-final", "renderall"], "every": False}}],
+    "random": [{"gen": gens.gen_total, "run_opts": {"every": False}}],
+    "min_scenarios": {"quick": 5000, "thorough": 50000},
+    "assumptions": [
+        "items are text-like (strings, runes, nil, Stringer/GoStringer/error objects with size overrides, numbers, nested cells); property values are the library's own",
+        "what RenderTo wrote before returning an error is not inspected here (C15 does)",
     ],
 }
